@@ -157,7 +157,7 @@ def generate(src):
     def or_ret(s, v):
         exits['on_ready:return'] += 1; g = s.ghost
         if exits['on_ready:return'] <= 5: reach(s, f"on_ready/reach@return#{exits['on_ready:return']}")
-        oblige(s, "on_ready/post: cancelled => nothing sent, no post_send; else one send then one post_send  [C16]", If(g['cancelled'], And(g['r_kiq'] == 0, g['r_post'] == 0), And(g['r_pre'] == 1, g['r_kiq'] == 1, g['r_kiq_ok'], g['r_post'] == 1)))
+        oblige(s, "on_ready/post: cancelled => nothing sent, no post_send; else one send then one post_send (the source learns that the schedule fired: a one-shot is removed, so it is sent exactly once)  [C16/C15]", If(g['cancelled'], And(g['r_kiq'] == 0, g['r_post'] == 0), And(g['r_pre'] == 1, g['r_kiq'] == 1, g['r_kiq_ok'], g['r_post'] == 1)))
     def or_exc(s, x):
         exits['on_ready:raise'] += 1; g = s.ghost
         oblige(s, "on_ready/raises: never after a cancel; nothing sent if pre_send failed  [C16]", And(Not(g['cancelled']), Implies(g['pre_failed'], g['r_kiq'] == 0), g['r_post'] == 0))
